@@ -212,3 +212,14 @@ func MinMatch(kind string, c lz.ParserConfig) (minLen, maxLen int) {
 	}
 	return
 }
+
+// iField reads an int field of a configuration by name (0 if absent).
+func iField(c lz.ParserConfig, name string) int {
+	b, _ := json.Marshal(c)
+	var m map[string]any
+	json.Unmarshal(b, &m)
+	if f, ok := m[name].(float64); ok {
+		return int(f)
+	}
+	return 0
+}
